@@ -511,8 +511,9 @@ def crun (limit : Nat) (chk : String → CheckRes) : List Ev → CSt → CSt
 def CSt.quiescent (s : CSt) : Bool := s.stopped && s.inflight.isEmpty && s.counted.isEmpty
 
 /-- `Execute`: depth / other errors are returned; condition errors only
-`if len(objects) < int(maxResults) && errs != nil` -/
-def finalResult (limit : Nat) (s : CSt) : Option (List String) :=
-  if s.err && (s.hard || decide (s.out.length < limit)) then none else some s.out
+`if len(objects) < int(maxResults) && errs != nil` — which never holds for `maxResults = 0` ("no limit");
+`zeroErr` = the rule also fires for 0 (regenerated from the source: `Gen.ListObjects.zeroLimitReportsErrors`) -/
+def finalResult (zeroErr : Bool) (limit : Nat) (s : CSt) : Option (List String) :=
+  if s.err && (s.hard || decide (s.out.length < limit) || (zeroErr && limit == 0)) then none else some s.out
 
 end OpenFGAVerif.RevExpand
